@@ -106,6 +106,10 @@ STRENGTH = {
     'C17j': 'hostile kind `auth_odd_child_spi` at every moment of the legitimate session: an in-window CREATE_CHILD_SA request sealed with the legitimate peer\'s keys, acceptable in every respect except a CHILD_SA SPI of 0 / 3 / 5 / 8 octets',
     'C18j': 'scenario `nonce_lengths`: nonces of 16, 17, 128, 255 and 256 octets over the threshold (COOKIE alone, not accepted with a nonce of another length, admitted with the right one)',
     'C20j': 'failure scenarios with three or four damaged copies (flipped ICV octets, truncation) in front of every protected datagram, follow-ups started by either peer',
+    'C03k': 'situation `rekeyed_successor_gone`: the DELETE after an IKE_SA rekey is lost, the old IKE_SAs linger on both sides and the successor has meanwhile ended by an authentic DELETE exchange; the whole forgery menu against both lingering IKE_SAs',
+    'C05k': '`Wire.tla` FieldProducts: TS payloads that mix IPv4 and IPv6 selectors in five orders (each selector has its own Selector Length, 3.13)',
+    'C11k': 'raw offers with several proposals are also sent with the KE payload in the first group of each LATER proposal: the suite comes from the first acceptable proposal (`Negotiate.tla` SelectBest), INVALID_KE_PAYLOAD names its group',
+    'C12k': 'network -> selector -> network for every prefix length at the lowest, the highest and ordinary addresses of both families (`::/0` ... `::/128`, `0.0.0.0/0` ...): the identity, and of the same family',
     'C19f': '`Config.tla`: secrets with blanks / tabs / line ends at either end and of the other letter case; float values (`.inf`, `.nan`, `1.5`); the cross-key rule "not all algorithm lists empty"',
 }
 ANTICIPATED = {'C13c', 'C18c', 'C09d', 'C16d', 'C18d'}
@@ -113,7 +117,7 @@ AFTER_REPORT = {'C01e'}       # strengthened after reading the agent's report, b
 
 
 def main():
-    rows, counts = [], {1: [0, 0], 2: [0, 0], 3: [0, 0], 4: [0, 0], 5: [0, 0], 6: [0, 0], 7: [0, 0], 8: [0, 0], 9: [0, 0], 10: [0, 0]}
+    rows, counts = [], {1: [0, 0], 2: [0, 0], 3: [0, 0], 4: [0, 0], 5: [0, 0], 6: [0, 0], 7: [0, 0], 8: [0, 0], 9: [0, 0], 10: [0, 0], 11: [0, 0]}
     for p in sorted(glob.glob(os.path.join(VERIF, 'seeded', '*', 'meta.json'))):
         m = json.load(open(p))
         k = m['name']
@@ -126,8 +130,8 @@ def main():
         rows.append((k, m['change'], m['needs_to_manifest'], 'yes' if outright else ('anticipated' if k in ANTICIPATED else 'no'), STRENGTH.get(k, '-') if not outright else '-'))
     total = sum(c[1] for c in counts.values())
     out = ['### 0.7 Seeded changes: which check catches which change\n',
-           f'{total} changes were written by fresh sub-agents (one per property and round; round 10 covered the ten properties with a miss in round 9 plus C17) that saw **only the text of the property** and a scratch worktree of `/repo` -',
-           'nothing from `/verif`; rounds 2 to 10 were additionally told which ideas the earlier rounds had used and to stay away from them.  Each change compiles, leaves the',
+           f'{total} changes were written by fresh sub-agents (one per property and round; rounds 10 and 11 covered ten properties each: those with a miss in round 9 plus C17, then the other ten) that saw **only the text of the property** and a scratch worktree of `/repo` -',
+           'nothing from `/verif`; rounds 2 to 11 were additionally told which ideas the earlier rounds had used and to stay away from them.  Each change compiles, leaves the',
            'repository\'s test suite at 176 passed / 11 failed, comes with a demonstration (`demo_seed.py`: PASS on the original, FAIL on the change) and was confirmed by',
            '`harness/seedeval.py` in a fresh worktree before the check of its property was run on it (`VERIF_REPO=<worktree>`, quick tier).  Patch, demonstration and',
            '`meta.json` (what it needs to manifest, what was run, the outcome before and after strengthening) are in `/verif/seeded/<id>/`; none of them was ever applied to `/repo`.\n',
